@@ -254,6 +254,9 @@ func (w *regWorld) apply(op regOp) (ms []mismatch, failed bool) {
 			nids[i] = el.NodeID(s)
 		}
 		err := w.broker.RegisterPipeline(el.Pipeline{PipelineID: el.PipelineID(op.PID), EventType: el.EventType(op.Typ), NodeIDs: nids}, opts...)
+		for i := range nids {
+			nids[i] = "scribbled-over-by-the-caller" // the slice is the caller's: it may reuse it once the call has returned
+		}
 		ok := w.model.RegisterPipeline(op.Typ, op.PID, op.NodeIDs, pol, given)
 		failed = err != nil
 		if (err == nil) != ok {
@@ -685,7 +688,7 @@ func runRegistrySeqOps(rc *RunCtx, prop string, fixed []regOp) {
 		weights := map[string][]int{ // regnode regpipe rmpipe rmpan rmnode send reopen setthr
 			"C05": {4, 8, 1, 2, 3, 1, 0, 1},
 			"C06": {4, 6, 3, 4, 5, 1, 0, 0},
-			"C07": {6, 7, 2, 1, 2, 3, 0, 0},
+			"C07": {6, 7, 2, 1, 2, 3, 2, 0},
 			"C20": {3, 6, 2, 1, 1, 0, 5, 0},
 		}[prop]
 		tot := 0
@@ -931,7 +934,9 @@ func relevant(prop, rule string) bool {
 		return rule == "remove-node" || rule == "remove-node-close" || rule == "rpan-result" || rule == "rpan-close" || rule == "rpan-close-error" ||
 			rule == "pinned" || rule == "delivery" || rule == "is-any"
 	case "C07":
-		return rule == "policy-node" || rule == "accept" || rule == "delivery"
+		// (reopen-missed: "re-registering a node ID affects only pipelines registered afterwards" -- the
+		// pipelines registered before keep the node they were linked with, for Reopen as for Send)
+		return rule == "policy-node" || rule == "accept" || rule == "delivery" || rule == "reopen-missed"
 	case "C20":
 		return rule == "reopen-error" || rule == "reopen-missed"
 	}
